@@ -120,6 +120,16 @@ func (t *Transformer) transformFieldsOf(wf *WireFieldsOf, pkg *types.Package) *K
 
 // buildStructConstructor builds a function literal for struct construction.
 func (t *Transformer) buildStructConstructor(structType types.Type, fields []fieldInfo, isPointer bool) *ast.FuncLit {
+	// The body spells the struct type (T{...} or pkg.T{...}): a parameter must not be named
+	// like the type or its package qualifier, or it would shadow them there.
+	usedInBody := make(map[string]struct{})
+	ast.Inspect(t.typeExpr(structType), func(n ast.Node) bool {
+		if ident, ok := n.(*ast.Ident); ok {
+			usedInBody[ident.Name] = struct{}{}
+		}
+		return true
+	})
+
 	// Build parameter list
 	var params []*ast.Field
 	var paramNames []string
@@ -127,6 +137,10 @@ func (t *Transformer) buildStructConstructor(structType types.Type, fields []fie
 		paramName := toLowerCamel(f.name)
 		if token.IsKeyword(paramName) {
 			// e.g. field Type -> parameter type_
+			paramName += "_"
+		}
+		if _, shadows := usedInBody[paramName]; shadows {
+			// e.g. type server struct{ Server *http.Server }: parameter server_
 			paramName += "_"
 		}
 		paramNames = append(paramNames, paramName)
